@@ -11,7 +11,7 @@
      dur  base ext secs nanos                       ClockReference{base, ext}.Duration()
    Rules: wb = Encode(v, WriterPLen(v, paylen), 0); got = v and the payload comes back;
           twin bytes = Encode(v, plen, hstuff); got = v; data length follows PES_packet_length;
-          Duration = base/90 kHz + ext/27 MHz truncated (either truncation order). *)
+          Duration = (base * 300 + ext) / 27 MHz truncated to nanoseconds once (the sum first); Time() = the same count from the Unix epoch. *)
 EXTENDS MonBase, PESEncode
 VARIABLES l, st
 vars == <<l, st>>
